@@ -31,6 +31,8 @@ REWRITES = [dataclasses.replace(rw, skip=tuple(rw.skip or ()) + READONLY) if rw.
     Rewrite('R1-receiver', r'create_element\(\s*&self\.sink,', 'create_element(&self.sink,'),
     Rewrite('R6-deref', r'None => Tendril::new\(\),', 'None => StrTendril::new(),', only=('XmlTreeBuilder::append_doctype_to_doc',), min_count=1),
     Rewrite('R15-msg', r'\bwarn!\([^;]*\);', ''),
+    Rewrite('R2-generics', r'pub fn new\(sink: Sink, opts: XmlTreeBuilderOpts\) -> XmlTreeBuilder<Handle, Sink>', 'pub fn new(sink: TreeSink, opts: XmlTreeBuilderOpts) -> XmlTreeBuilder', only=('XmlTreeBuilder::new',), min_count=1),
+    Rewrite('R32-vecmacro', r'RefCell::new\(vec!\[\]\)', 'RefCell::new(Vec::new())', only=('XmlTreeBuilder::new',), min_count=1),
     Rewrite('R15-msg', r'self\.debug_step\(mode, &token\);', '', only=('XmlTreeBuilder::step',), min_count=1),
 ]
 
@@ -54,6 +56,7 @@ PARTS = [_assume(p) for p in u_xns.PARTS[:-1]] + [
     Item(TY, 'enum', 'XmlProcessResult'),
     Prelude('xtb.prelude.rs'),
     Item(TB, 'fn', 'current_node', qname='current_node'),
+    Item(TB, 'fn', 'new', impl='XmlTreeBuilder', wrap='impl XmlTreeBuilder', qname='XmlTreeBuilder::new'),
 ] + [tb(n) for n in FNS] + [
     Raw('} // verus!\nfn main() {}'),
 ]
